@@ -6,8 +6,8 @@
    UnmarshalCaddyfile over Caddy's token stream (model/Caddyfile.v, model/CaddyfileLeaves.v);
    Caddy's lexer, Dispenser cursor and module loader are not modelled, "loads and provisions" is
    checked by the engine only.  Leaf equations are proved for every modelled module
-   ([mleaf_proved] = [mleaf_ok], [hleaf_proved] = [hleaf_ok]); the http matcher and the tls
-   handler are not modelled (engine oracle only). *)
+   ([mleaf_proved] = [mleaf_ok], [hleaf_proved] = [hleaf_ok]); not modelled (engine oracle only): request matchers other than host/path/method/not inside http,
+   cert_selection / client_auth / insecure_secrets_log of the tls handler, tls_trust_pool, exponent-form rates. *)
 From Coq Require Import List ZArith NArith Bool String.
 From L4.model Require Import Caddyfile CaddyfileLeaves.
 From L4.proofs Require Import CaddyfileProofs CaddyfileLeafProofs.
@@ -85,6 +85,33 @@ Theorem C15_struct_roundtrip_not : forall sets, forallb keys_sorted sets = true 
   not_unmarshal (not_marshal sets) = Some sets.
 Proof. exact not_struct_roundtrip. Qed.
 
+(* the object-shaped raw encodings of the tls / quic matchers (a caddy.ModuleMap) and the array-shaped one
+   of the http matcher (caddyhttp.RawMatcherSets): marshal (unmarshal j) = j and back *)
+Theorem C15_json_roundtrip_tls_quic : forall j,
+  match j with JObj m => keys_sorted m | _ => false end = true ->
+  exists m, tls_unmarshal j = Some m /\ tls_marshal m = j.
+Proof. exact tls_json_roundtrip. Qed.
+Theorem C15_struct_roundtrip_tls_quic : forall m, keys_sorted m = true -> tls_unmarshal (tls_marshal m) = Some m.
+Proof. exact tls_struct_roundtrip. Qed.
+Theorem C15_json_roundtrip_http : forall j, sets_json_wf j = true ->
+  exists sets, http_unmarshal j = Some sets /\ http_marshal sets = j.
+Proof. exact not_json_roundtrip. Qed.
+Theorem C15_struct_roundtrip_http : forall sets, forallb keys_sorted sets = true ->
+  http_unmarshal (http_marshal sets) = Some sets.
+Proof. exact not_struct_roundtrip. Qed.
+
+(* several global "layer4" blocks are merged in source order: the i-th server of the file, counting
+   through the blocks in order, is the one the adapted JSON holds under "srv<i>"; the grouping of the
+   servers into blocks is irrelevant *)
+Theorem C15_server_numbering : forall (c : configT) i s,
+  config_ok_proved c = true -> nth_error (List.concat c) i = Some s ->
+  exists j, adapt_l4 (print_l4 c) = Some j /\ adapted_server j (N.of_nat i) = Some (server_json_l4 s).
+Proof. exact server_numbering_l4. Qed.
+Theorem C15_blocks_merge : forall c1 c2 : configT,
+  config_ok_proved c1 = true -> config_ok_proved c2 = true -> List.concat c1 = List.concat c2 ->
+  adapt_l4 (print_l4 c1) = adapt_l4 (print_l4 c2).
+Proof. exact blocks_merge_l4. Qed.
+
 (* ---- non-vacuity: a configuration with named matcher sets (inline, block, not), a nested
    subroute with its own set, a tee, two servers in two global blocks *)
 Definition ex_cfg : configT :=
@@ -106,6 +133,24 @@ Example C15_nonvacuous :
   config_ok_proved ex_cfg = true /\
   adapt_l4 (print_l4 ex_cfg) = Some (to_json_l4 ex_cfg) /\
   List.length (print_l4 ex_cfg) = 125%nat.
+Proof. vm_compute. repeat split. Qed.
+
+(* tls / quic / http matchers, a tls handler with connection policies, a decimal throttle rate *)
+Definition ex_cfg2 : configT :=
+  [[Server [":8443"]
+      (RBlock None
+         [("@t", false, [MLeaf (MTls false false [TSni ["example.com"]; TRemoteIP [(true, RPrivate); (false, RCidr "10.0.0.0/8")]])]);
+          ("@h", true, [MLeaf (MHttp false [HmSimple (HkHost, ["example.com"]); HmNot true [(HkPath, ["/admin*"])]])]);
+          ("@q", true, [MLeaf (MTls true true [TAlpn ["h3"]])])]
+         [(["@t"], [HLeaf (HTls [ConnPolicy ["h2"] [] ["x25519"] (Some "example.com") false None None ["tls1.2"; "tls1.3"]
+                                    (Some (true, [TLocalIP [RPrivate]]))]);
+                    HLeaf (HThrottle None None (Some (RDec 1 "5")) None (Some (RInt 100)));
+                    HLeaf HEcho]);
+          (["@h"; "@q"], [HLeaf HEcho])])]].
+Example C15_nonvacuous2 :
+  config_ok_proved ex_cfg2 = true /\ adapt_l4 (print_l4 ex_cfg2) = Some (to_json_l4 ex_cfg2) /\
+  adapted_server (to_json_l4 ex_cfg) 1 = Some (server_json_l4 (Server ["udp/:53"]
+     (RBlock None [] [([], [HLeaf (HThrottle (Some (Dur 10 Ums)) (Some 1024%Z) None None None)])]))).
 Proof. vm_compute. repeat split. Qed.
 
 (* the model rejects what the adapter rejects: duplicate set name, undefined reference *)
@@ -132,3 +177,10 @@ Print Assumptions C15_int32_roundtrip.
 Print Assumptions C15_json_roundtrip_not.
 Print Assumptions C15_struct_roundtrip_not.
 Print Assumptions C15_nonvacuous.
+Print Assumptions C15_json_roundtrip_tls_quic.
+Print Assumptions C15_struct_roundtrip_tls_quic.
+Print Assumptions C15_json_roundtrip_http.
+Print Assumptions C15_struct_roundtrip_http.
+Print Assumptions C15_server_numbering.
+Print Assumptions C15_blocks_merge.
+Print Assumptions C15_nonvacuous2.
